@@ -3,6 +3,7 @@ package props
 import (
 	"errors"
 	"fmt"
+	"net/url"
 	"strings"
 
 	"github.com/beevik/etree"
@@ -82,6 +83,7 @@ type c03Case struct {
 	entityID   bool
 	validator  int // 0 none, 1 returns nil, 2 returns error
 	curDiffers bool
+	curForm    int // 0 absolute received-at URL, 1 origin-form (path only, as net/http servers see it), 2 origin-form with query
 	entry      int // 0 xml 1 post 2 artifact(signed AR) 3 artifact(unsigned AR)
 	arIssuer   fieldVal
 	arStatus   fieldVal
@@ -96,8 +98,8 @@ func (k c03Case) String() string {
 		}
 		return "[" + strings.Join(s, ",") + "]"
 	}
-	return fmt.Sprintf("rIss=%s aIss=%s recip=%s aud=%s dest=%s status=%s signedResp=%v entityID=%v validator=%d curDiffers=%v entry=%d arIss=%s arStatus=%s",
-		fv(k.respIssuer), fv(k.aIssuer), l(k.recips), l(k.auds), fv(k.dest), fv(k.status), k.signedResp, k.entityID, k.validator, k.curDiffers, k.entry, fv(k.arIssuer), fv(k.arStatus))
+	return fmt.Sprintf("rIss=%s aIss=%s recip=%s aud=%s dest=%s status=%s signedResp=%v entityID=%v validator=%d curDiffers=%v curForm=%d entry=%d arIss=%s arStatus=%s",
+		fv(k.respIssuer), fv(k.aIssuer), l(k.recips), l(k.auds), fv(k.dest), fv(k.status), k.signedResp, k.entityID, k.validator, k.curDiffers, k.curForm, k.entry, fv(k.arIssuer), fv(k.arStatus))
 }
 
 const c03EntityID = "urn:example:sp-entity"
@@ -119,6 +121,10 @@ func c03Base(c *core.Ctx) c03Case {
 	if c.Rng.Intn(2) == 0 {
 		k.entry = c.Rng.Intn(2)
 	}
+	if c.Rng.Intn(5) == 0 {
+		k.curForm = 1 + c.Rng.Intn(2)
+		k.curDiffers = true
+	}
 	if c.Rng.Intn(4) == 0 {
 		k.validator = 1 + c.Rng.Intn(2)
 	}
@@ -139,7 +145,7 @@ func c03Base(c *core.Ctx) c03Case {
 	}
 	k.dest = ok(so.SPACS)
 	if k.curDiffers && c.Rng.Intn(2) == 0 {
-		k.dest = fieldVal{kind: "correct-cur", val: so.SPACS + "?x=1"}
+		k.dest = fieldVal{kind: "correct-cur", val: c03CurStr(k)}
 	}
 	if !k.signedResp && c.Rng.Intn(3) == 0 {
 		k.dest = fieldVal{kind: "absent", absent: true}
@@ -184,7 +190,11 @@ func c03Deviate(c *core.Ctx, k *c03Case, field, variant int) {
 	case 4:
 		vs := nearMisses(so.SPACS)
 		if k.curDiffers {
-			vs = append(vs, fieldVal{kind: "correct-cur", val: so.SPACS + "?x=1"})
+			vs = append(vs, fieldVal{kind: "correct-cur", val: c03CurStr(*k)})
+			if k.curForm > 0 { // same path (and query) as the received-at URL, on someone else's host
+				u := c03Cur(*k)
+				vs = append(vs, fieldVal{kind: "otherhost-same-request-uri", val: "https://sp.evil.example" + u.RequestURI()}, fieldVal{kind: "acs-host-other-scheme", val: "http://sp.example.com" + u.RequestURI()})
+			}
 		} else {
 			vs = append(vs, fieldVal{kind: "acs-with-other-query", val: so.SPACS + "?x=1"})
 		}
@@ -329,10 +339,7 @@ func c03Run(c *core.Ctx, o *so.Oracle, k c03Case) {
 		}
 	}
 	raw := so.Bytes(rel)
-	cur := mustURL(so.SPACS)
-	if k.curDiffers {
-		cur = mustURL(so.SPACS + "?x=1")
-	}
+	cur := c03Cur(k)
 	var got *saml.Assertion
 	var perr error
 	var sent []byte = raw
@@ -495,3 +502,19 @@ func keyChar(r rune) rune {
 	}
 	return '_'
 }
+
+// c03Cur is the URL at which the response is received in case k.
+func c03Cur(k c03Case) url.URL {
+	acs := mustURL(so.SPACS)
+	switch {
+	case k.curForm == 1:
+		return url.URL{Path: acs.Path}
+	case k.curForm == 2:
+		return url.URL{Path: acs.Path, RawQuery: "x=1"}
+	case k.curDiffers:
+		return mustURL(so.SPACS + "?x=1")
+	}
+	return acs
+}
+
+func c03CurStr(k c03Case) string { u := c03Cur(k); return u.String() }
